@@ -205,9 +205,12 @@ RecStmts == {SAssign(F("c"), Bin("+", Fld("a"), EInt(1))),                    \*
              SPattern(Bin("==", NRx, EInt(2)), <<SFilter(EBool(FALSE))>>),      \* excludes the second record only
              SPattern(Bin("==", Fld("a"), EInt(1)), <<SFilter(EBool(FALSE))>>),  \* ... the first record only
              SAssign(F("n"), Fld("nosuch")),                                   \* absent: no assignment
-             SDecl("var", "t", Fld("a")), SAssign(F("t"), Lc("t"))}
+             SDecl("var", "t", Fld("a")), SAssign(F("t"), Lc("t")),
+             [t |-> "tee"]}                                                     \* the record as it is at that point, to a file
 RecEnds == {<<>>, <<SEmit("sum", <<>>)>>, <<SEmit("cnt", <<"b">>)>>, <<SEmit("tot", <<"b">>), SEmit("sum", <<>>)>>, <<SPrint(Oos("sum"))>>}
-RecordCases == {Case(Prog(<<>>, <<>>, m, e, q), Recs2) : m \in Seqs(RecStmts, 1, 2), e \in RecEnds, q \in BOOLEAN}
+\* (two tee STATEMENTS writing the same file with > each open it on their own; what the file then holds is not documented)
+RecordCases == {Case(Prog(<<>>, <<>>, m, e, q), Recs2) :
+                  m \in {x \in Seqs(RecStmts, 1, 2) : ~(Len(x) = 2 /\ x[1].t = "tee" /\ x[2].t = "tee")}, e \in RecEnds, q \in BOOLEAN}
 
 (***************************************************************************)
 (* "positional": $[[n]] (the name of field n) and $[[[n]]] (its value) on   *)
